@@ -39,7 +39,8 @@ class Contract:
     def __init__(self, target, requires=(), ensures=(), raises=(), on_raise=None, modifies=None,
                  returns=None, loops=None, params=None, max_paths=4000, pure_spec=None,
                  no_return=False, props=(), ghost_asserts=None, notes="", assumed=False,
-                 locals=None, ghost_modifies=(), decreases=None, loop_all=None):
+                 locals=None, ghost_modifies=(), decreases=None, loop_all=None, closure=None,
+                 waive=()):
         self.target = target
         self.requires = list(requires)
         self.ensures = list(ensures)
@@ -60,6 +61,8 @@ class Contract:
         self.ghost_modifies = list(ghost_modifies)
         self.decreases = decreases   # integer measure over the parameters (recursion variant)
         self.loop_all = list(loop_all or [])   # invariants of every loop without its own entry
+        self.closure = closure or {}     # free variables of a nested function: name -> type spec
+        self.waive = list(waive)         # obligation texts explicitly left unverified (reported)
 
 
 class Seq:
